@@ -20,7 +20,7 @@ func c01Record(rng *rand.Rand, uid *int) string {
 		case 0:
 			return reqNote(fmt.Sprintf("n%d", u), "ok")
 		case 1:
-			return reqNote(fmt.Sprintf("n%d", u), "err")
+			return reqNote(fmt.Sprintf("n%d", u), []string{"err", "errcode:-32600", "errcode:-32700", "errcode:-32601"}[rng.Intn(4)])
 		case 2:
 			return fmt.Sprintf(`{"jsonrpc":"2.0","id":%d,"method":"nope","params":["c%d","ok"]}`, u, u)
 		case 3:
@@ -85,6 +85,9 @@ func TestC01(t *testing.T) {
 				finishedAt[f[1]] = i
 			case "out":
 				msg := strings.TrimPrefix(e, "out ")
+				if strings.Contains(msg, `"method":"cbm"`) || strings.Contains(msg, `"method":"nm"`) {
+					continue // a request pushed by the server, not a reply
+				}
 				p.outs = append(p.outs, msg)
 				// a reply is sent only after every handler of ITS message has returned: every tag
 				// whose result/error it carries must have finished before
@@ -120,7 +123,11 @@ func TestC01(t *testing.T) {
 		}
 		res.Case(logShape(r.Log), multi, map[string]any{"records": p.records, "outs": p.outs})
 		for _, rec := range p.records {
-			lines = append(lines, "c02 0 "+hxs(rec))
+			pflag := "0"
+			if sc.AllowPush {
+				pflag = "1"
+			}
+			lines = append(lines, "c02 "+pflag+" "+hxs(rec))
 			owners = append(owners, len(runs))
 		}
 		runs = append(runs, p)
@@ -134,6 +141,28 @@ func TestC01(t *testing.T) {
 			for k := 1 + rng.Intn(5); k > 0; k-- {
 				sc.Ops = append(sc.Ops, envOp{Kind: "send", Arg: c01Record(rng, &uid)})
 			}
+			for j := 0; j < pick(6, 20); j++ {
+				runOne(sc, rngPick(rand.New(rand.NewSource(rng.Int63()))))
+			}
+		}
+		// push-enabled: handlers that await a callback while the client's own calls use ids that
+		// collide with callback ids (both counters start at 1)
+		for i := 0; i < pick(40, 400); i++ {
+			sc := &srvScenario{Concurrency: 2 + rng.Intn(2), AllowPush: true}
+			ops := []envOp{
+				{Kind: "send", Arg: reqCall(100, "c100", "cb:k1")},
+				{Kind: "send", Arg: reqCall(1, "c1", "ok")},
+				{Kind: "send", Arg: reqCall(2, "c2", "ok")},
+			}
+			if rng.Intn(2) == 0 {
+				ops = append(ops, envOp{Kind: "send", Arg: reqBatch(reqCall(101, "c101", "cb:k2"), reqNote("n102", "ok"))})
+			}
+			ops = append(ops, envOp{Kind: "cbreply", Arg: "k1"})
+			if len(ops) == 5 {
+				ops = append(ops, envOp{Kind: "cbreply", Arg: "k2"})
+			}
+			ops = append(ops, envOp{Kind: "reply", Arg: `{"jsonrpc":"2.0","id":1,"result":"late"}`})
+			sc.Ops = ops
 			for j := 0; j < pick(6, 20); j++ {
 				runOne(sc, rngPick(rand.New(rand.NewSource(rng.Int63()))))
 			}
